@@ -58,3 +58,39 @@ impl Drop for Slot {
         c.notify_one();
     }
 }
+
+/// Run an external compiler with a wall-clock limit; a compile that does not finish is reported as an error
+/// (the description is then dropped like any other the toolchain refuses: inconclusive for that description,
+/// never a violation).
+pub fn output_with_timeout(mut c: std::process::Command, secs: u64) -> std::io::Result<std::process::Output> {
+    use std::io::Read;
+    c.stdout(std::process::Stdio::piped()).stderr(std::process::Stdio::piped());
+    let mut ch = c.spawn()?;
+    let (mut so, mut se) = (ch.stdout.take().unwrap(), ch.stderr.take().unwrap());
+    let t1 = std::thread::spawn(move || {
+        let mut b = vec![];
+        let _ = so.read_to_end(&mut b);
+        b
+    });
+    let t2 = std::thread::spawn(move || {
+        let mut b = vec![];
+        let _ = se.read_to_end(&mut b);
+        b
+    });
+    let t0 = std::time::Instant::now();
+    let status = loop {
+        if let Some(st) = ch.try_wait()? {
+            break st;
+        }
+        if t0.elapsed().as_secs() > secs {
+            let _ = ch.kill();
+            let st = ch.wait()?;
+            let _ = t1.join();
+            let _ = t2.join();
+            let _ = st;
+            return Err(std::io::Error::new(std::io::ErrorKind::TimedOut, format!("compiler did not finish within {secs} s")));
+        }
+        std::thread::sleep(std::time::Duration::from_millis(200));
+    };
+    Ok(std::process::Output { status, stdout: t1.join().unwrap_or_default(), stderr: t2.join().unwrap_or_default() })
+}
